@@ -374,6 +374,100 @@ def probe_ref(idxs, eff: dict) -> str:
 
 
 # ----------------------------------------------------------------------------------------------------------------------
+# read-only consumers of options on LONG-LIVED nodes (their per-node memo stays warm across calls, blocks, threads).
+# Law (OptionsRead.tla, ReadAnswer): the answer depends only on the node's source and the effective options of that call
+# - observed as: the same call, at the same moment, on a tree freshly built from the same source answers the same.
+
+READ_SRC = '''import os  # first
+
+# lead
+g = 1  # tail
+# post
+
+class cls:
+    def f(self):
+        """doc
+        string"""
+        x = """not
+        doc"""
+        """expr
+        string"""
+        return x
+
+s = {a}
+v = (b)
+w = [c := d]
+r = call(*not e, k=1)
+def h(a, /, b, *, c): pass
+def gl():
+    global m, n
+if p:
+    pass
+else:
+    if q: pass
+t = a < b > c
+'''
+
+_ALL = tuple(DEFAULTS)
+# (name, node of the tree, option names the call accepts per call, the call)
+READS = [
+    ('own_src', lambda r: r.body[2].body[0], ('docstr',), lambda n, kw: n.own_src(**kw)),
+    ('own_lines', lambda r: r.body[2].body[0], ('docstr',), lambda n, kw: '\n'.join(n.own_lines(**kw))),
+    ('own_src.cls', lambda r: r.body[2], ('docstr',), lambda n, kw: n.own_src(**kw)),
+    ('unparse', lambda r: r.body[2].body[0], (), lambda n, kw: __import__('fst').unparse(n.a)),
+    ('copy.def', lambda r: r.body[2].body[0], _ALL, lambda n, kw: n.copy(**kw).src),
+    ('copy.stmt', lambda r: r.body[1], _ALL, lambda n, kw: n.copy(**kw).src),
+    ('copy.par', lambda r: r.body[4].value, _ALL, lambda n, kw: n.copy(**kw).src),
+    ('copy.walrus', lambda r: r.body[5].value.elts[0], _ALL, lambda n, kw: n.copy(**kw).src),
+    ('copy.arglike', lambda r: r.body[6].value.args[0], _ALL, lambda n, kw: n.copy(**kw).src),
+    ('get_slice.set', lambda r: r.body[3].value, _ALL, lambda n, kw: n.get_slice(0, 0, **kw).src + '|' + n.get_slice(0, 1, **kw).src),
+    ('get_slice.args', lambda r: r.body[7].args, _ALL, lambda n, kw: n.get_slice(0, 3, **kw).src),
+    ('get.names', lambda r: r.body[8].body[0], _ALL, lambda n, kw: type(n.get(0, 'names', **kw)).__name__),
+    ('get_slice.cmp', lambda r: r.body[10].value, _ALL, lambda n, kw: n.get_slice(1, 2, **kw).src),
+    ('get_slice.body', lambda r: r.body[2].body[0], _ALL, lambda n, kw: n.get_slice(0, 3, 'body', **kw).src),
+    ('copy.orelse', lambda r: r.body[9].orelse[0], _ALL, lambda n, kw: n.copy(**kw).src),
+]
+# per-call option worth passing to each read (it changes the answer)
+READ_SENSITIVE = {
+    'own_src': ['docstr'], 'own_lines': ['docstr'], 'own_src.cls': ['docstr'], 'unparse': [], 'copy.def': ['docstr', 'trivia'],
+    'copy.stmt': ['trivia'], 'copy.par': ['pars'], 'copy.walrus': ['pars_walrus', 'pars'], 'copy.arglike': ['pars_arglike', 'pars'],
+    'get_slice.set': ['norm_get', 'norm', 'set_norm'], 'get_slice.args': ['args_as'], 'get.names': ['promote'],
+    'get_slice.cmp': ['op_side'], 'get_slice.body': ['docstr', 'trivia'], 'copy.orelse': ['elif_', 'trivia'],
+}
+
+
+class ReadTree:
+    """A tree that lives as long as the run; the node objects are resolved once and reused for every read."""
+
+    def __init__(self):
+        self.root = FST(READ_SRC, 'exec')
+        self.nodes = [path(self.root) for _, path, _, _ in READS]
+
+
+_SHARED = {'tree': None}
+
+
+def shared_tree(new=False):
+    if new or _SHARED['tree'] is None:
+        _SHARED['tree'] = ReadTree()
+    return _SHARED['tree']
+
+
+def do_read(tree: ReadTree, q: int, kw: dict):
+    """-> (answer on the long-lived node, answer of the same call on a tree freshly built from the same source)"""
+    name, path, params, call = READS[q]
+    kw = {k: v for k, v in kw.items() if k in params}
+
+    def run(node):
+        try:
+            return call(node, kw)
+        except Exception as e:  # noqa: BLE001
+            return '!' + type(e).__name__ + ':' + scrub(str(e))
+
+    return run(tree.nodes[q]), run(path(FST(READ_SRC, 'exec')))
+
+
+# ----------------------------------------------------------------------------------------------------------------------
 # registry log (auxiliary, PFST_VERIF=1 only)
 
 _TL = threading.local()
@@ -637,6 +731,7 @@ def interpret(ch, tid, srcs=(), reglog=None, counter=None, cellspecs=()):
     specs = {sp['id']: sp for sp in cellspecs}
     cells = {i: make_cell(sp) for i, sp in specs.items()}   # this run's own mutable option objects
     REPS = 3
+    own_reads = ReadTree()          # this thread's own long-lived tree (never edited)
 
     def reply(c, r):
         r['k'] = c['k']
@@ -674,6 +769,9 @@ def interpret(ch, tid, srcs=(), reglog=None, counter=None, cellspecs=()):
                     # the same call, with the very same option objects, on fresh identical targets, REPS times
                     r['reps'] = [probe(c['probes'], ov) for _ in range(REPS)]
                     r['res'] = r['reps'][0]
+            elif k == 'read':
+                tree = own_reads if c['tree'] == 'own' else shared_tree()
+                r['res'], r['ref'] = do_read(tree, c['q'], resolve(c['kw'], cells))
             elif k == 'edit':
                 r.update(env.edit(c['tree'], c['seed']))
             elif k == 'tedit':
